@@ -766,7 +766,41 @@ type c13Gener struct {
 	nev     int
 }
 
+// spellings of a nick that differ from it only in the case of letters (IRC servers treat them as
+// the same nick: a change between them is a rename of the same user)
+func c13CaseVariants(n string) []string {
+	var out []string
+	if n == "" {
+		return out
+	}
+	title := strings.ToUpper(n[:1]) + strings.ToLower(n[1:])
+	for _, v := range []string{strings.ToUpper(n), strings.ToLower(n), title} {
+		dup := v == n
+		for _, w := range out {
+			dup = dup || w == v
+		}
+		if !dup {
+			out = append(out, v)
+		}
+	}
+	return out
+}
+
+// is the nick, up to case, carried by a user other than `self`? Two users whose nicks differ only
+// in case never coexist on a network: the generator does not emit such a connect / nick change
+func (g *c13Gener) foldTaken(n, self string) bool {
+	for u := range g.nt.users {
+		if u != self && u != n && strings.EqualFold(u, n) {
+			return true
+		}
+	}
+	return false
+}
+
 func (g *c13Gener) emit(it c13Item) {
+	if it.op == "CO" && g.foldTaken(it.a[0], "") || it.op == "NI" && g.foldTaken(it.a[1], it.a[0]) {
+		return
+	}
 	// schedule the replies to the requests the client will make
 	me := g.nt.me
 	if it.op == "JO" && g.nt.valid(it) {
@@ -947,12 +981,41 @@ func (g *c13Gener) event() {
 				g.emit(c13Item{op: "JO", a: []string{u, g.anyChan()}})
 			}
 		}
-	case k < 66: // nick change (the client itself sometimes; onto freed names)
+	case k < 66: // nick change (the client itself sometimes; onto freed names; case-only changes)
 		o := me
 		neu := r.Pick(c13MePool)
 		if r.Chance(80) {
 			if u, ok := g.otherUser(); ok {
 				o, neu = u, g.freeNick()
+			}
+		}
+		if r.Chance(35) {
+			// the same user under another capitalisation (Bob -> bob): a rename like any other,
+			// followed by traffic under the new spelling
+			if vs := c13CaseVariants(o); len(vs) > 0 {
+				neu = vs[r.Intn(len(vs))]
+				g.emit(c13Item{op: "NI", a: []string{o, neu}})
+				if _, ok := g.nt.users[neu]; ok && neu != g.nt.me {
+					for c := range g.nt.chans {
+						if g.nt.on(c, neu) && g.nt.on(c, g.nt.me) && r.Chance(70) {
+							g.emit(c13Item{op: "MO", a: []string{g.someUser(), c}, chgs: []c13Chg{{add: r.Bool(), letter: "ov"[r.Intn(2)], arg: neu}}})
+							break
+						}
+					}
+					switch r.Intn(5) {
+					case 0:
+						g.emit(c13Item{op: "QU", a: []string{neu, r.Pick(c13Msgs)}})
+					case 1:
+						if c, ok := g.myChan(); ok {
+							g.emit(c13Item{op: "PA", a: []string{neu, c, r.Pick(c13Msgs)}})
+						}
+					case 2:
+						if c, ok := g.myChan(); ok {
+							g.emit(c13Item{op: "KI", a: []string{g.someUser(), c, neu, r.Pick(c13Msgs)}})
+						}
+					}
+				}
+				return
 			}
 		}
 		g.emit(c13Item{op: "NI", a: []string{o, neu}})
@@ -1006,6 +1069,22 @@ func c13Sim(r *Rand, nev, nusers, nchans, spare int, drift bool) *c13Case {
 	c.items = g.items
 	c.nicks = append(append([]string{""}, c13MePool...), g.nicks...)
 	c.nicks = append(c.nicks, "nobody", "vbo", "Guest7")
+	// every spelling a case-only nick change can produce
+	seen := map[string]bool{}
+	for _, n := range c.nicks {
+		seen[n] = true
+	}
+	for _, n := range append([]string{}, c.nicks...) {
+		if n == "" {
+			continue
+		}
+		for _, v := range c13CaseVariants(n) {
+			if !seen[v] {
+				seen[v] = true
+				c.nicks = append(c.nicks, v)
+			}
+		}
+	}
 	c.chans = append([]string{""}, g.chans...)
 	return c
 }
@@ -1224,6 +1303,23 @@ func c13Gen(r *Rand, tier string, scale int, emit func(in Fields)) {
 	}
 	for i := 0; i < 10; i++ {
 		emit(c13RobCase(r.Fork(), r.Range(2, 6)).fields())
+	}
+	// two scripted tiny sessions: a user / the client itself changes only the CASE of its nick
+	// (the same user for the server), then traffic under the new spelling
+	ev := func(op string, a ...string) c13Item { return c13Item{op: op, a: a} }
+	for _, own := range []bool{false, true} {
+		c := &c13Case{kind: "sim", me: "vbot", user: "vident", host: "client.example", real: "v name", greet: "vbot", mask: true,
+			nicks: []string{"vbot", "VBOT", "Vbot", "Bob", "bob", "BOB"}, chans: []string{"#x"}}
+		c.items = []c13Item{ev("CO", "Bob", "u", "h.example", "Bob B"), ev("JO", "vbot", "#x"), ev("JO", "Bob", "#x"), ev("MK")}
+		if own {
+			c.items = append(c.items, ev("NI", "vbot", "VBOT"), ev("MK"),
+				c13Item{op: "MO", a: []string{"Bob", "#x"}, chgs: []c13Chg{{add: true, letter: 'v', arg: "VBOT"}}}, ev("NI", "VBOT", "Vbot"), ev("MK"))
+		} else {
+			c.items = append(c.items, ev("NI", "Bob", "bob"), ev("MK"),
+				c13Item{op: "MO", a: []string{"vbot", "#x"}, chgs: []c13Chg{{add: true, letter: 'v', arg: "bob"}}}, ev("NI", "bob", "BOB"),
+				ev("PA", "BOB", "#x", "bye"), ev("MK"))
+		}
+		emit(c.fields())
 	}
 	lo, hi := 50, 300
 	if tier == "thorough" {
